@@ -242,6 +242,34 @@ func buildOps() []hop {
 			return posStream.claim(s, []int{20, 32, 64}[a]), []string{s}
 		}, "ok"})
 	}
+	ops = append(ops, hop{"random-refused", func() (string, []string) {
+		var bad []string
+		for _, a := range []int{3, 4, 99, 255} {
+			if s, err := otp.RandomSecret(otp.Algorithm(a)); err == nil || s != "" {
+				bad = append(bad, fmt.Sprint(a))
+			}
+		}
+		return fmt.Sprint(bad), nil
+	}, "[]"})
+	// strings the parser must REFUSE although each is one edit away from a string another operation has had parsed
+	// (suite-parse-k) or from a registered name: a memo keyed on a folded or trimmed form would answer for them
+	ops = append(ops, hop{"suite-lookalikes-refused", func() (string, []string) {
+		var accepted []string
+		for k := 1; k <= 44; k += 7 {
+			n := fmt.Sprintf("OCRA-1:HOTP-SHA%d-%d:QN%s-T%dS", []int{1, 256, 512}[k%3], 4+k%7, []string{"08", "10"}[k%2], k)
+			for _, bad := range []string{strings.TrimSuffix(n, "S") + "s", n + " ", " " + n, n + "-", strings.Replace(n, "SHA", "\u017fHA", 1), strings.Replace(n, ":QN", ":QN0", 1), strings.Replace(n, "-T", "-T+", 1), strings.Replace(n, "OCRA-1", "OCRA-01", 1), n + "\x00"} {
+				if _, err := otp.NewRawSuite(bad); err == nil {
+					accepted = append(accepted, bad)
+				}
+			}
+		}
+		for _, bad := range []string{"OCRA-1:HOTP-SHA1-6:QN08 ", "OCRA-1:HOTP-SHA256-8:C-QA10-PSHA256-S-T1\n", "OCRA-1:HOTP-SHA1-6:QN08-T1m", "OCRA-1:HOTP-\u017fHA1-6:QN08"} {
+			if _, err := otp.NewRawSuite(bad); err == nil {
+				accepted = append(accepted, bad)
+			}
+		}
+		return fmt.Sprintf("%q", accepted), nil
+	}, "[]"})
 	q1, _ := ref.DecimalQuestion("12345678")
 	q2, _ := ref.DecimalQuestion("99999999999999999999")
 	ops = append(ops, hop{"helpers-a", func() (string, []string) {
